@@ -19,10 +19,15 @@
       `NodePath.rest()`, parameters shadowing constants.
 
   NO side condition on depth or path value is needed: `symbol_table_for_tree` only ever calls
-  `NodePath::new` on a non-negative composition, so the `get_u32` little-endian cast defect
-  (finding C04-get-u32-path) is NOT reachable from the path assignment (`node_path_add_exact`).
-  It IS reachable from the classic compiler as a whole through the optimiser it runs on its
-  output (`deep_path_optimizer_counterexample`, finding C03-deep-path-get-u32).
+  `NodePath::new` on a non-negative composition, so the casts of a NEGATIVE index
+  (`bigint_to_bytes_clvm` → `bigint_from_bytes` → `get_u32`) are not reachable from the path
+  assignment (`node_path_add_exact`).  They are reachable from the classic compiler as a whole
+  through the optimiser it runs on its output: with the little-endian `get_u32` of the code as
+  found a parameter 32 or more levels deep was mis-addressed there (former finding
+  C03-deep-path-get-u32, repaired in /repo c2e6c4f).  Now every path the assignment writes
+  whose atom is a minimal encoding — in particular every `first` chain of every depth — is
+  re-rooted exactly (`deep_path_optimizer_exact`, `deep_first_chain_exact`,
+  `deep_path_optimizer_repaired`).
 
   FULL PROPERTY (not proved as one theorem): for every classic program `P` and argument `a`,
   `evalSrc P a = ok v → Evaluates ops (classicCompile P) a v`.  The macro expansion / `com` /
@@ -31,6 +36,7 @@
 -/
 import ChialispModel.Props.C01
 import ChialispModel.Proofs.ClassicEnvLemmas
+import ChialispModel.Proofs.NodePathSigned
 
 namespace C03
 open ClassicEnv
@@ -127,18 +133,39 @@ theorem node_path_add_exact (a b : Nat) (hb : 1 ≤ b) :
 example : NodePath.asPath (NodePath.add (2 ^ 39 - 1 + 2 ^ 39) ClassicEnv.leftBytes) = [0x01, 0x7f, 0xff, 0xff, 0xff, 0xff] := by
   decide
 
-/-- … whereas the cast defect of finding C04-get-u32-path (same witness as
-    `C04.as_path_new_counterexample_get_u32`) sits in `NodePath::new` of a NEGATIVE number, which
-    only the optimiser's `path_optimizer` produces (it reads path atoms signed).  The classic
-    compiler runs that optimiser on its own output, so a parameter 32 levels deep is mis-addressed
-    once the optimiser re-roots its path: `(f 0x80000000)` — "first of the node at depth 31" —
-    becomes path 256 (depth 8).  Real witness (run/brun):
-    `(mod ((…((X . R0) . R1) … ) . R31) (defconstant KK 1000) (+ KK X))` compiles to
-    `(+ (q . 1000) 256)`.  Finding C03-deep-path-get-u32. -/
-theorem deep_path_optimizer_counterexample :
-    NodePath.new (Bytes.toInt [0x80, 0, 0, 0]) = 128 ∧
-    NodePath.stepPath [0x80, 0, 0, 0] false = [0x01, 0x00] ∧
-    Path.compose (Bytes.toNatBE [0x80, 0, 0, 0]) 2 = 2 ^ 32 := by
+/-- … and the optimiser's `path_optimizer`, which the classic compiler runs on its own output
+    and which DOES go through `NodePath::new` of a negative number (it reads path atoms signed),
+    re-roots every path atom that is a minimal encoding exactly, at every depth:
+    `(f P)` / `(r P)` becomes the atom clvmr reads as `P·2` / `P·3`.  (False for the code as
+    found from 4-byte atoms up — little-endian `get_u32`, former finding C03-deep-path-get-u32.) -/
+theorem deep_path_optimizer_exact {b : Bytes} (hc : Bytes.canonical b = true) (isRest : Bool) :
+    Bytes.toNatBE (NodePath.stepPath b isRest)
+      = Path.compose (Bytes.toNatBE b) (if isRest then 3 else 2) := by
+  rw [NodePath.toNatBE_stepPath, NodePath.new_canonical hc]
+
+/-- **a parameter at the end of a `first` chain of ANY depth** (`k` levels: path `2^k`, the atom
+    `as_path` writes is `0x80 00 … 00` whenever `k ≡ 7 mod 8` — depth 8, 16, 24, 32, 40, …) is
+    addressed correctly after the optimiser re-roots it: the result is the path `2^k·2`
+    (resp. `2^k·3`), i.e. one more `first` (`rest`) below the same node. -/
+theorem deep_first_chain_exact (k : Nat) (isRest : Bool) :
+    Bytes.toNatBE (NodePath.stepPath (NodePath.asPath (2 ^ k)) isRest)
+      = Path.compose (2 ^ k) (if isRest then 3 else 2) := by
+  rw [NodePath.toNatBE_stepPath, NodePath.new_asPath_two_pow]
+
+/-- non-vacuity at the depths the former finding was about (32 and 40 levels of `first`). -/
+example : NodePath.asPath (2 ^ 31) = [0x80, 0, 0, 0] ∧ Bytes.canonical [0x80, 0, 0, 0] = true ∧
+    NodePath.asPath (2 ^ 39) = [0x80, 0, 0, 0, 0] ∧ Bytes.canonical [0x80, 0, 0, 0, 0] = true := by decide
+
+/-- the former counter-witness of finding C03-deep-path-get-u32, on the repaired code:
+    `(f 0x80000000)` — "first of the node at depth 31" — becomes path 2^32 (it was 256, depth 8).
+    Real witness (run/brun):
+    `(mod ((…((X . R0) . R1) … ) . R31) (defconstant KK 1000) (+ KK X))` now compiles to
+    `(+ (q . 1000) 0x0100000000)` and returns 1777 on 32 levels of first around 777. -/
+theorem deep_path_optimizer_repaired :
+    NodePath.new (Bytes.toInt [0x80, 0, 0, 0]) = 2 ^ 31 ∧
+    NodePath.stepPath [0x80, 0, 0, 0] false = [0x01, 0, 0, 0, 0] ∧
+    Path.compose (Bytes.toNatBE [0x80, 0, 0, 0]) 2 = 2 ^ 32 ∧
+    Bytes.toNatBE [0x01, 0, 0, 0, 0] = 2 ^ 32 := by
   decide
 
 /-- **`build_tree_program`.**  If every item program `pᵢ` evaluates in `env` to `vᵢ`, the program
